@@ -1,3 +1,5 @@
+//go:build !verifsched
+
 package props
 
 import (
@@ -62,7 +64,7 @@ func init() {
 type rawval []byte
 
 func (r rawval) Marshal(b *bytes.Buffer) { b.Write(r) }
-func (r rawval) Bytes() []byte            { return []byte(r) }
+func (r rawval) Bytes() []byte           { return []byte(r) }
 
 type spy struct {
 	called bool
